@@ -267,7 +267,21 @@ def exit_scripts(rnd):
             for mode in (0, 1):
                 chunks = [chunk(k, rnd, mode) for k in pat]
                 out.append(script(via, chunks, echo=rnd.randint(0, 1), rst=rnd.randint(0, 1)))
-        if via != "fake":       # exit and the peer's close arrive in the same loop pass
+        if via != "fake":
+            # more bytes arrive after the session has ended but before the connection is closed: the last segment is written
+            # from inside the loop, `late` passes after the pass in which the server read the segment with the exit command
+            lates = [S("p y") + [ENTER], S("p y") + [ENTER_LF] + ex + [ENTER], [UP, ENTER], S("x")]
+            for late in (0, 1, 2, 3):
+                for first in (ex + [ENTER], S("p x;") + ex + [ENTER_LF], S("quit") + [ENTER] + S("p z") + [ENTER], ex + S(";") + ex + [ENTER]):
+                    for lk in lates:
+                        ch = {"k": [first, lk], "segs": [[b for k in first for b in enc(k)], [b for k in lk for b in enc(k)]], "late": late}
+                        out.append(script(via, [ch], echo=rnd.randint(0, 1), rst=rnd.randint(0, 1)))
+                    if via == "telnet":     # the late bytes are telnet commands (negotiation, sub-negotiation, two-byte command)
+                        for raw, lk in (([IAC, DO, 1], []), ([IAC, SB, 31, 0, 80, 0, 24, IAC, SE], []), ([IAC, NOP], []),
+                                        ([IAC, DONT, 3] + S("p y") + [13, 10], S("p y") + [ENTER])):
+                            ch = {"k": [first, lk], "segs": [[b for k in first for b in enc(k)], raw], "late": late}
+                            out.append(script(via, [ch], rst=rnd.randint(0, 1)))
+            # exit and the peer's close arrive in the same loop pass
             for data in (ex + [13, 10], ex + [13, 10] + ex + [13, 10], S("p x;exit") + [10]):
                 for rst in (0, 1):
                     out.append(script(via, [{"k": [[]], "segs": [data], "hostile": 1, "nopump": 1}], rst=rst))
